@@ -390,7 +390,7 @@ pub const DEF: PropertyDef = PropertyDef {
            empty and single-token maps) x queries derived from every token position (exact, +-1 column, column 0 / u32::MAX, neighbouring \
            lines, corners) plus random ones; oracle = linear scan over tokens(). histories: 1..6 producing operations (rewrite, \
            adjust_mappings, round trip, wrap+flatten, set_source_root, clone) with the ordering invariant and all lookups after every step. \
-           Non-trivial = >= 3 tokens, a duplicated position, and an exact hit on a duplicated position or a query strictly between two tokens",
+           After every step also: iterator-protocol conformance of tokens()/sources()/names()/source_contents() (nth, skip, step_by, count, last, size_hint, mixed walks), TokenIter::seek, has_names; the initial map is also queried as a Hermes map (SourceMapHermes and DecodedMap::Hermes). Non-trivial = >= 3 tokens, a duplicated position, and an exact hit on a duplicated position or a query strictly between two tokens",
     assumptions: &[
         "when several identical raw tokens share a position the returned one is identified by value, not by index",
         "histories use coordinates < 64 so that adjust/flatten arithmetic stays in range (overflow is C05's domain)",
